@@ -1041,3 +1041,198 @@ End Key.
 (* what the separation theorems assume of json.dumps and of sha256, on the two compared inputs only *)
 Definition dumps_sep (dumps : pyv -> string) (v w : pyv) : Prop := dumps v = dumps w -> normalise v = normalise w.
 Definition H_sep {digest : Type} (H : string -> digest) (a b : string) : Prop := H a = H b -> a = b.
+
+(* ------------------------------------------------------------------------------------------ *)
+(* The dataset half of the key  (hashing._update_hash_with_dataset / DatasetHash)              *)
+(* ------------------------------------------------------------------------------------------ *)
+(* what pandas' hash_array sees of a cell: ints by value, floats by their 64 bit pattern *)
+Inductive cell := CInt (z : Z) | CFloat (bits : Z) | CStr (s : string) | CBool (b : bool).
+Inductive index :=
+| IRange (start stop step : Z)                                    (* pd.RangeIndex *)
+| ILabels (labels : list cell) (dtype : string) (name : option string).   (* any other Index *)
+Record frame := mkFrame {
+  f_columns : list string; f_dtypes : list string; f_index : index; f_rows : list (list cell) }.
+
+(* repr(df.index): a RangeIndex by its three numbers; any other index by its labels -- all of them
+   up to display.max_seq_items = 100, beyond that the first and the last ten and the length *)
+Inductive index_view :=
+| VRange (a b c : Z)
+| VFull (l : list cell) (dt : string) (nm : option string)
+| VTrunc (head tail : list cell) (n : nat) (dt : string) (nm : option string).
+Definition lastn {A} (n : nat) (l : list A) : list A := skipn (List.length l - n) l.
+Definition index_view_of (i : index) : index_view :=
+  match i with
+  | IRange a b c => VRange a b c
+  | ILabels l dt nm => if Nat.leb (List.length l) 100 then VFull l dt nm
+                       else VTrunc (firstn 10 l) (lastn 10 l) (List.length l) dt nm
+  end.
+
+(* everything of a frame that reaches the hash: the cells row by row (index=False: not the index
+   labels), repr(list(df.columns)), repr(df.index), repr(list(df.dtypes)).  Dropped: df.attrs,
+   the name of the columns axis, index labels that repr() elides. *)
+Definition ds_input (f : frame) : list (list cell) * list string * index_view * list string :=
+  (f_rows f, f_columns f, index_view_of (f_index f), f_dtypes f).
+
+Definition cat_all (l : list string) : string := fold_right append "" l.
+Section DatasetBytes.
+Variable rowhash : list cell -> string.        (* int(val).to_bytes(8, 'big') of pandas' row hash *)
+Variable repr_names : list string -> string.   (* repr(list(df.columns)) *)
+Variable repr_index : index_view -> string.    (* repr(df.index), as far as it shows the index *)
+Variable repr_dtypes : list string -> string.  (* repr(list(df.dtypes)) *)
+Definition ds_bytes (f : frame) : string :=
+  cat_all (map rowhash (f_rows f)) ++ repr_names (f_columns f)
+  ++ repr_index (index_view_of (f_index f)) ++ repr_dtypes (f_dtypes f).
+End DatasetBytes.
+(* the row hash separates the rows of the two compared frames (it cannot be injective on all rows: 8 bytes) *)
+Definition rows_sep (rowhash : list cell -> string) (l l' : list (list cell)) : Prop :=
+  forall r r', In r l -> In r' l' -> rowhash r = rowhash r' -> r = r'.
+(* a text format that can be read off the front of a longer text: Python's repr of a list / an Index *)
+Definition decodable {A} (f : A -> string) : Prop := forall a b x y, (f a ++ x = f b ++ y)%string -> a = b.
+
+(* ---- DataFrame.equals: same columns, dtypes, index labels and cells (NaN equals NaN, -0.0 equals 0.0) ---- *)
+Definition f64_nan (bits : Z) : bool :=
+  Z.eqb (Z.land bits 9218868437227405312) 9218868437227405312 && negb (Z.eqb (Z.land bits 4503599627370495) 0).
+Definition f64_zero (bits : Z) : bool := Z.eqb (Z.land bits 9223372036854775807) 0.
+Definition cell_equals (a b : cell) : bool :=
+  match a, b with
+  | CInt x, CInt y => Z.eqb x y
+  | CFloat x, CFloat y => Z.eqb x y || (f64_nan x && f64_nan y) || (f64_zero x && f64_zero y)
+  | CStr x, CStr y => String.eqb x y
+  | CBool x, CBool y => Bool.eqb x y
+  | _, _ => false end.
+Definition cell_same (a b : cell) : bool :=
+  match a, b with
+  | CInt x, CInt y => Z.eqb x y | CFloat x, CFloat y => Z.eqb x y
+  | CStr x, CStr y => String.eqb x y | CBool x, CBool y => Bool.eqb x y | _, _ => false end.
+Fixpoint range_labels (fuel : nat) (a b c : Z) : list cell :=
+  match fuel with
+  | O => []
+  | S k => if ((0 <? c) && (a <? b) || (c <? 0) && (b <? a))%Z then CInt a :: range_labels k (a + c) b c else []
+  end.
+Definition index_labels (i : index) : list cell :=
+  match i with IRange a b c => range_labels (Z.to_nat (Z.abs (b - a)) + 1) a b c | ILabels l _ _ => l end.
+Definition frame_equals (f g : frame) : bool :=
+  list_eqb String.eqb (f_columns f) (f_columns g) && list_eqb String.eqb (f_dtypes f) (f_dtypes g)
+  && list_eqb cell_equals (index_labels (f_index f)) (index_labels (f_index g))
+  && list_eqb (list_eqb cell_equals) (f_rows f) (f_rows g).
+
+Definition opt_str_eqb := opt_eqb String.eqb.
+Definition index_view_same (a b : index_view) : bool :=
+  match a, b with
+  | VRange x y z, VRange x' y' z' => Z.eqb x x' && Z.eqb y y' && Z.eqb z z'
+  | VFull l d n, VFull l' d' n' => list_eqb cell_same l l' && String.eqb d d' && opt_str_eqb n n'
+  | VTrunc h t k d n, VTrunc h' t' k' d' n' =>
+      list_eqb cell_same h h' && list_eqb cell_same t t' && Nat.eqb k k' && String.eqb d d' && opt_str_eqb n n'
+  | _, _ => false end.
+Definition ds_input_same (f g : frame) : bool :=
+  list_eqb (list_eqb cell_same) (f_rows f) (f_rows g) && list_eqb String.eqb (f_columns f) (f_columns g)
+  && index_view_same (index_view_of (f_index f)) (index_view_of (f_index g))
+  && list_eqb String.eqb (f_dtypes f) (f_dtypes g).
+
+(* ------------------------------------------------------------------------------------------ *)
+(* Results JSON  (workflows/results.py: ResultsJSONEncoder / ResultsJSONDecoder, read_results)   *)
+(* ------------------------------------------------------------------------------------------ *)
+(* A results object: its class (module, qualified name) and its attributes in dataclass order
+   (vars(self), __version__ first).  An attribute is a plain value (None, numbers, str, nested
+   lists / tuples / dicts of such), a DataFrame, a Series, a Log, a Model, a Path, or something
+   json cannot encode (set, ndarray, numpy scalar).  Tables and logs are engine values: pandas'
+   to_json(orient='table') / read_json and Log.to_dict / from_dict are Section variables.
+   (Nested Results objects, tables inside lists, Series of DataFrames and altair charts are
+   outside the model; C20 owns the numeric precision of the table text.) *)
+Definition reserved_key (s : string) : bool := String.eqb s "__class__" || String.eqb s "__module__".
+Fixpoint remove_key (k : string) (d : list (pkey * pyv)) : list (pkey * pyv) :=
+  match d with
+  | [] => []
+  | (KStr k', v) :: tl => if String.eqb k k' then remove_key k tl else (KStr k', v) :: remove_key k tl
+  | kv :: tl => kv :: remove_key k tl
+  end.
+Fixpoint str_ends_with (suffix s : string) : bool :=
+  String.eqb suffix s || match s with EmptyString => false | String _ tl => str_ends_with suffix tl end.
+(* a plain value in which no dictionary carries a reserved key (the decoder's object hook would act on it) *)
+Fixpoint plain_clean (v : pyv) : bool :=
+  match v with
+  | PList l => forallb plain_clean l
+  | PTuple l => forallb plain_clean l
+  | PDict d => forallb (fun kv => match kv with
+                                  | (KStr k, x) => negb (reserved_key k) && plain_clean x
+                                  | (KInt _, x) => plain_clean x end) d
+  | _ => true
+  end.
+
+Section ResultsJson.
+Variable tbl : Type.
+Variable tbl_json : tbl -> list (pkey * pyv).             (* _df_to_json: json.loads(df.to_json(orient='table', ...)) *)
+Variable tbl_read : list (pkey * pyv) -> option tbl.      (* _df_read_json; None = raises *)
+Variable logv : Type.
+Variable log_json : logv -> list (pkey * pyv).            (* Log.to_dict *)
+Variable log_read : list (pkey * pyv) -> option logv.     (* Log.from_dict *)
+
+Inductive rfield :=
+| FPlain (v : pyv) | FFrame (t : tbl) | FSeries (t : tbl) | FLog (l : logv)
+| FModel | FPath (p : string) | FOther.
+Record results := mkResults { r_module : string; r_class : string; r_fields : list (string * rfield) }.
+
+Definition class_item (c : string) : pkey * pyv := (KStr "__class__", PStr c).
+(* ResultsJSONEncoder.default, per attribute; None = TypeError *)
+Definition encode_field (f : rfield) : option pyv :=
+  match f with
+  | FPlain v => Some v
+  | FFrame t => Some (PDict (tbl_json t ++ [class_item "DataFrame"]))
+  | FSeries t => Some (PDict (tbl_json t ++ [class_item "Series"]))       (* obj.to_frame() *)
+  | FLog l => Some (PDict (log_json l ++ [class_item "Log"]))
+  | FModel => Some PNone                                                  (* "return None" *)
+  | FPath p => Some (PDict [(KStr "path", PStr p); class_item "PosixPath"])
+  | FOther => None
+  end.
+Definition encode_results (r : results) : option pyv :=
+  items <- traverse (fun nf => v <- encode_field (snd nf) ;; Some (KStr (fst nf), v)) (r_fields r) ;;
+  Some (PDict (items ++ [(KStr "__module__", PStr (r_module r)); class_item (r_class r)])).
+
+(* ResultsJSONDecoder.object_hook on the value of one attribute (inner dictionaries of a plain
+   value carry no reserved key: the hook returns them unchanged) *)
+Definition decode_field (v : pyv) : option rfield :=
+  match v with
+  | PDict d =>
+      match dget "__module__" d, dget "__class__" d with
+      | Some _, None => None                                   (* ValueError *)
+      | None, None => Some (FPlain v)
+      | m, Some (PStr c) =>
+          let obj := remove_key "__class__" (remove_key "__module__" d) in
+          let pandas_ok := match m with None => true | Some (PStr ms) => String.prefix "pandas." ms | _ => false end in
+          if pandas_ok && String.eqb c "DataFrame" then t <- tbl_read obj ;; Some (FFrame t)
+          else if pandas_ok && String.eqb c "Series" then t <- tbl_read obj ;; Some (FSeries t)
+          else if str_ends_with "Results" c then None            (* a nested results object: outside the model *)
+          else if String.eqb c "PosixPath" then None             (* Path(obj) with obj a dict: TypeError *)
+          else if String.eqb c "Log" then l <- log_read obj ;; Some (FLog l)
+          else Some (FPlain (PDict obj))
+      | _, Some _ => None
+      end
+  | _ => Some (FPlain v)
+  end.
+Definition decode_results (v : pyv) : option results :=
+  match v with
+  | PDict d =>
+      match dget "__module__" d, dget "__class__" d with
+      | Some (PStr m), Some (PStr c) =>
+          if negb (str_ends_with "Results" c) then None else
+          fields <- traverse (fun kv => match kv with
+                                        | (KStr k, x) => f <- decode_field x ;; Some (k, f)
+                                        | _ => None end)
+                             (remove_key "__class__" (remove_key "__module__" d)) ;;
+          Some (mkResults m c fields)
+      | _, _ => None
+      end
+  | _ => None
+  end.
+
+(* the attribute kinds read_results gives back unchanged *)
+Definition field_supported (f : rfield) : bool :=
+  match f with
+  | FPlain v => is_json v && plain_clean v
+  | FFrame _ | FSeries _ | FLog _ => true
+  | FModel | FPath _ | FOther => false
+  end.
+Definition results_supported (r : results) : bool :=
+  str_ends_with "Results" (r_class r)
+  && forallb (fun nf => negb (reserved_key (fst nf)) && field_supported (snd nf)) (r_fields r).
+End ResultsJson.
